@@ -534,6 +534,13 @@ def check_pyfaults(case) -> Res:
 
 
 def run(ctx):
+    from ..fsshim import selftest
+    st_, detail = selftest.run()          # kernel's view (strace) == interposer's view, before anything is believed
+    if st_ == "mismatch":
+        raise RuntimeError("fs interposer self-test failed - the shim is blind to part of the write path:\n" + detail)
+    ctx.coverage["interposer_selftest"] = f"{st_}: {detail}"[:600]
+    if st_ == "skipped":
+        ctx.note("interposer self-test skipped: " + detail)
     scs = scenarios(ctx.quick)
     ctx.coverage["bounds"] = {"scenarios": len(scs), "errnos": [errno.errorcode[e] for e in ERRNOS], "pairs": "second errno EIO after first EIO" if ctx.quick else "all 25 errno pairs"}
     st = ctx.explore("faults", [(sc, ctx.quick) for sc in scs], check_scenario, chunk=1)
